@@ -24,11 +24,13 @@ for _n in ("tcp", "tcpA", "tcpB"):
 MC_DEPTH["MC_tcp"] = (6, 7)
 GEN_DEPTH["GEN_tcpA"] = (6, 7)
 GEN_DEPTH["GEN_tcpB"] = (5, 6)
-for _n in ("clienttxn", "clienttxnLive", "clienttxnA", "clienttxnB", "clienttxnLA", "clienttxnLB", "clienttxnLC", "clienttxnLD", "clienttxnLE"):
+for _n in ("clienttxn", "clienttxnLive", "clienttxnR", "clienttxnA", "clienttxnB", "clienttxnLA", "clienttxnLB", "clienttxnLC", "clienttxnLD", "clienttxnLE"):
     MODULE_OF["MC_" + _n] = MODULE_OF["GEN_" + _n] = "ClientTxn.tla"
     MC_DEPTH["MC_" + _n] = None
     GEN_DEPTH["GEN_" + _n] = None
 MC_DEPTH["MC_clienttxn"] = (9, 11)
+MC_DEPTH["MC_clienttxnR"] = (9, 11)
+GEN_DEPTH["GEN_clienttxnR"] = (7, 8)
 GEN_DEPTH["GEN_clienttxnA"] = (7, 8)
 GEN_DEPTH["GEN_clienttxnB"] = (6, 7)
 for _n in ("disp_serverudp", "disp_serverstream", "disp_client"):
@@ -60,7 +62,7 @@ MC_DEPTH.update({"MC_auth": (5, 7), "MC_noauth": (3, 4), "MC_nonce": None})
 GEN_DEPTH.update({"GEN_anon": (4, 5), "GEN_auth": (4, 5), "GEN_noauth": (2, 3), "GEN_nonce": None})
 
 
-NO_SIM = {"GEN_bindreply", "GEN_framerBig", "GEN_disp_serverstream", "GEN_steps", "GEN_clienttxnLA", "GEN_clienttxnLB", "GEN_clienttxnLC", "GEN_clienttxnLD", "GEN_clienttxnLE", "GEN_clienttxnB", "GEN_codec", "GEN_nonce", "GEN_noauth", "GEN_mtu", "GEN_mtu1200", "GEN_ltcred", "GEN_relaygenOne", "GEN_relaygenTop"}
+NO_SIM = {"GEN_clienttxnR", "GEN_bindreply", "GEN_framerBig", "GEN_disp_serverstream", "GEN_steps", "GEN_clienttxnLA", "GEN_clienttxnLB", "GEN_clienttxnLC", "GEN_clienttxnLD", "GEN_clienttxnLE", "GEN_clienttxnB", "GEN_codec", "GEN_nonce", "GEN_noauth", "GEN_mtu", "GEN_mtu1200", "GEN_ltcred", "GEN_relaygenOne", "GEN_relaygenTop"}
 
 
 def depth(table, name, t):
@@ -177,8 +179,8 @@ def with_server_trace(run):
 
 def c12_run(ctx):
     if os.environ.get("VERIF_ONLY") != "rt":
-        core_run(["MC_clienttxn", "MC_clienttxnLive"],
-                             ["GEN_clienttxnA", "GEN_clienttxnB", "GEN_clienttxnLA", "GEN_clienttxnLB", "GEN_clienttxnLC", "GEN_clienttxnLD", "GEN_clienttxnLE"])(ctx)
+        core_run(["MC_clienttxn", "MC_clienttxnLive", "MC_clienttxnR"],
+                             ["GEN_clienttxnA", "GEN_clienttxnB", "GEN_clienttxnR", "GEN_clienttxnLA", "GEN_clienttxnLB", "GEN_clienttxnLC", "GEN_clienttxnLD", "GEN_clienttxnLE"])(ctx)
     if not ctx.violations:   # real time, real concurrency: schedules the virtual clock cannot produce (mutex waits)
         n = 24 if ctx.tier == "quick" else 240
         ctx.trace_validate("clienttxn-rt", "TestClientTxnRT", "TraceClientTxnRT.tla", "TraceClientTxnRT.cfg", n)
